@@ -1,6 +1,7 @@
 package main
 
 import (
+	"sort"
 	"fmt"
 	"go/token"
 	"go/types"
@@ -281,27 +282,33 @@ func (vc *FuncVC) applyContract(s *State, cl *callee, ord int, site ssa.Instruct
 	siteKey := fmt.Sprintf("call %s#%d", cl.name, ord)
 	var ss *SiteSpec
 	if vc.cur.c != nil {
-		ss = vc.cur.c.Sites[siteKey]
-		if w := vc.cur.c.Sites[fmt.Sprintf("call %s#*", cl.name)]; w != nil {
-			if ss == nil {
-				ss, siteKey = w, fmt.Sprintf("call %s#*", cl.name)
-			} else { // clauses for this ordinal and clauses for every ordinal both apply
-				vc.sitesUsed[fmt.Sprintf("call %s#*", cl.name)] = true
-				ss = &SiteSpec{Site: ss.Site, Asserts: append(append([]Clause{}, ss.Asserts...), w.Asserts...),
-					Assumes: append(append([]Clause{}, ss.Assumes...), w.Assumes...), Ghost: append(append([]GhostAssign{}, ss.Ghost...), w.Ghost...)}
+		// every clause group that names this call applies: by full callee name or a dot/slash-boundary suffix of
+		// it ("call Database.SetInbox#1"), for this ordinal or for every ordinal ("#*"), or a callee wildcard ("dyn.*")
+		var keys []string
+		for k := range vc.cur.c.Sites {
+			short, ok := siteShort(k, ord)
+			if !ok {
+				continue
+			}
+			if short == cl.name || strings.HasSuffix(cl.name, "."+short) || strings.HasSuffix(cl.name, "/"+short) || (strings.HasSuffix(short, ".*") && strings.HasPrefix(cl.name, strings.TrimSuffix(short, "*"))) {
+				keys = append(keys, k)
 			}
 		}
-		if ss == nil {
-			// allow a dot-boundary suffix of the callee name: "call Database.SetInbox#1"
-			for k, v := range vc.cur.c.Sites {
-				short, ok := siteShort(k, ord)
-				if !ok {
-					continue
-				}
-				if strings.HasSuffix(cl.name, "."+short) || strings.HasSuffix(cl.name, "/"+short) || (strings.HasSuffix(short, ".*") && strings.HasPrefix(cl.name, strings.TrimSuffix(short, "*"))) {
-					ss = v
-					siteKey = k
-				}
+		sort.Strings(keys)
+		if len(keys) == 1 {
+			ss, siteKey = vc.cur.c.Sites[keys[0]], keys[0]
+		} else if len(keys) > 1 {
+			m := &SiteSpec{Site: vc.cur.c.Sites[keys[0]].Site}
+			for _, k := range keys {
+				w := vc.cur.c.Sites[k]
+				vc.sitesUsed[k] = true
+				m.Asserts = append(m.Asserts, w.Asserts...)
+				m.Assumes = append(m.Assumes, w.Assumes...)
+				m.Ghost = append(m.Ghost, w.Ghost...)
+			}
+			ss = m
+			if _, ok := vc.cur.c.Sites[siteKey]; !ok {
+				siteKey = keys[0]
 			}
 		}
 		if ss != nil {
